@@ -249,3 +249,26 @@ Proof.
   destruct (lookup ty gen_class_of_type) as [c'|]; [|discriminate]. apply String.eqb_eq in H. subst. reflexivity.
 Qed.
 Print Assumptions C17_class_roundtrip.
+
+(* forwarding of Mesh.save -> io.meshio.to_file -> to_meshio (regenerated): every argument reaches the parameter of the same
+   name with the documented defaults (point_data = cell_data = None, encode_cell_data = True, encode_point_data = False), and
+   for ALL dictionaries of the caller and of the encoder: without the flag the caller's dictionary is passed on as it is; with
+   the flag every key the encoder does not produce keeps the caller's value (user data are never lost) and every key of the
+   encoder carries the encoder's value *)
+Theorem C17_save_forwarding :
+  (gen_to_file_passes = gen_to_meshio_params /\ gen_to_file_defaults = gen_to_meshio_defaults /\
+   gen_save_passes = ["self"; "filename"; "point_data"; "cell_data"]%string) /\
+  forall (V : Type) (ecd epd : bool) (user : option (list (string * V))) (enc : list (string * V)),
+    let spec (flag : bool) (res : option (list (string * V))) :=
+      (flag = false -> res = user) /\
+      (flag = true -> exists d, res = Some d /\
+         (forall k, lookup k enc = None -> lookup k d = match user with Some u => lookup k u | None => None end) /\
+         (NoDup (map fst enc) -> forall k v, lookup k enc = Some v -> lookup k d = Some v)) in
+    spec ecd (gen_cell_data_of_to_meshio ecd epd user enc) /\ spec epd (gen_point_data_of_to_meshio ecd epd user enc).
+Proof.
+  split.
+  - destruct save_forwarding as [H1 [H2 [_ [_ [H5 _]]]]]. split; [exact H1|]. split; [exact H5 | exact H2].
+  - intros V ecd epd user enc spec. destruct (gen_data_is_model V ecd epd user enc) as [-> ->].
+    split; [exact (data_option_spec ecd user enc) | exact (data_option_spec epd user enc)].
+Qed.
+Print Assumptions C17_save_forwarding.
